@@ -198,6 +198,17 @@ int main()
     yr_compiler_set_callback(comp, vf_compiler_cb, &errs);
     yr_compiler_set_re_ast_callback(comp, ast_cb, &st);
     if (atomq) yr_compiler_set_atom_quality_table(comp, atomq, (int) (atomqlen / 5), 0);
+    for (int i = 1; i < n; i++)
+      if (!strncmp(toks[i], "cext=", 5))
+      {
+        // cext=<s|i>:<name>:<hex string | integer>
+        char* p[4]; char tmp[4096]; snprintf(tmp, sizeof tmp, "%s", toks[i] + 5);
+        if (splitc(tmp, ':', p, 4) == 3)
+        {
+          if (p[0][0] == 's') { size_t xl; char* v = (char*) unhex(p[2], &xl); yr_compiler_define_string_variable(comp, p[1], v); free(v); }
+          else yr_compiler_define_integer_variable(comp, p[1], strtoll(p[2], 0, 10));
+        }
+      }
     size_t l; char* text = (char*) unhex(src, &l);
     int e = yr_compiler_add_string(comp, text, NULL);
     free(text);
